@@ -62,34 +62,129 @@ Definition bb_consistent (z : zone) : bool :=
 (* EquivTransitions                                                     *)
 
 Lemma equiv_ok z a b : zfacts z -> idx_ok z a = true -> idx_ok z b = true ->
-  equiv_transitions (z_types z) a b = OK (eqv_types z a b).
+  equiv_transitions (z_abbrs z) (z_types z) a b = OK (eqv_types z a b).
 Proof.
   intros F Ha Hb. unfold eqv_types, equiv_transitions.
   destruct (a =? b); [reflexivity|].
-  destruct (type_facts z a F Ha) as (ta & -> & _).
-  destruct (type_facts z b F Hb) as (tb & -> & _).
-  reflexivity.
+  destruct (type_facts z a F Ha) as (ta & -> & _ & _ & _ & _ & Aa).
+  destruct (type_facts z b F Hb) as (tb & -> & _ & _ & _ & _ & Ab).
+  cbn [bind].
+  destruct (negb (tt_off ta =? tt_off tb)); [reflexivity|].
+  destruct (negb (Bool.eqb (tt_isdst ta) (tt_isdst tb))); [reflexivity|].
+  destruct (tt_abbr ta =? tt_abbr tb); [reflexivity|].
+  rewrite (cstr_from_ok _ _ Aa), (cstr_from_ok _ _ Ab). reflexivity.
 Qed.
 
 Lemma eqv_types_refl z a : eqv_types z a a = true.
 Proof. unfold eqv_types, equiv_transitions. rewrite Z.eqb_refl. reflexivity. Qed.
 
+(* what the comparison decides (after the C11 fix, see History.v F11): the same
+   index, or two types with the same offset, the same is_dst and the same
+   abbreviation TEXT (the same abbr_index, or two indices whose C strings are
+   both readable and equal).  No validity assumption on the indices. *)
+Definition same_type (z : zone) (a b : Z) : Prop :=
+  a = b \/
+  exists ta tb, nth_res (z_types z) a = OK ta /\ nth_res (z_types z) b = OK tb /\
+    tt_off ta = tt_off tb /\ tt_isdst ta = tt_isdst tb /\
+    (tt_abbr ta = tt_abbr tb \/
+     exists s, cstr_from (z_abbrs z) (tt_abbr ta) = OK s /\ cstr_from (z_abbrs z) (tt_abbr tb) = OK s).
+
+Lemma eqv_types_char z a b : eqv_types z a b = true <-> same_type z a b.
+Proof.
+  unfold eqv_types, equiv_transitions, same_type.
+  destruct (Z.eqb_spec a b) as [->|Nab]; [tauto|].
+  destruct (nth_res (z_types z) a) as [ta|ea] eqn:Ea; cbn [bind].
+  2:{ split; [discriminate|]. intros [H|(ta & tb & H & _)]; [contradiction|discriminate]. }
+  destruct (nth_res (z_types z) b) as [tb|eb] eqn:Eb; cbn [bind].
+  2:{ split; [discriminate|]. intros [H|(ta' & tb' & _ & H & _)]; [contradiction|discriminate]. }
+  destruct (Z.eqb_spec (tt_off ta) (tt_off tb)) as [Eo|No]; cbn [negb].
+  2:{ split; [discriminate|]. intros [H|(ta' & tb' & H1 & H2 & H3 & _)]; [contradiction|].
+      inversion H1; inversion H2; subst. contradiction. }
+  destruct (Bool.eqb (tt_isdst ta) (tt_isdst tb)) eqn:Ed; cbn [negb].
+  2:{ split; [discriminate|]. intros [H|(ta' & tb' & H1 & H2 & _ & H3 & _)]; [contradiction|].
+      inversion H1; inversion H2; subst. rewrite H3, eqb_reflx in Ed. discriminate. }
+  apply eqb_prop in Ed.
+  destruct (Z.eqb_spec (tt_abbr ta) (tt_abbr tb)) as [Eab|Nab'].
+  { split; [|reflexivity]. intros _. right. exists ta, tb. auto 10. }
+  destruct (cstr_from (z_abbrs z) (tt_abbr ta)) as [sa|xa] eqn:Ca; cbn [bind].
+  2:{ split; [discriminate|].
+      intros [H|(ta' & tb' & H1 & H2 & _ & _ & [H3|(s & H3 & _)])]; [contradiction| |];
+        inversion H1; inversion H2; subst; [contradiction|congruence]. }
+  destruct (cstr_from (z_abbrs z) (tt_abbr tb)) as [sb|xb] eqn:Cb; cbn [bind].
+  2:{ split; [discriminate|].
+      intros [H|(ta' & tb' & H1 & H2 & _ & _ & [H3|(s & _ & H3)])]; [contradiction| |];
+        inversion H1; inversion H2; subst; [contradiction|congruence]. }
+  rewrite list_eqb_eq. split.
+  - intros ->. right. exists ta, tb. repeat split; auto. right. exists sb. auto.
+  - intros [H|(ta' & tb' & H1 & H2 & _ & _ & [H3|(s & H3 & H4)])]; [contradiction| |];
+      inversion H1; inversion H2; subst; [contradiction|congruence].
+Qed.
+
+Lemma same_type_sym z a b : same_type z a b -> same_type z b a.
+Proof.
+  intros [->|(ta & tb & H1 & H2 & Ho & Hd & Hab)]; [left; reflexivity|].
+  right. exists tb, ta. repeat split; auto.
+  destruct Hab as [E|(s & C1 & C2)]; [left; auto|right; exists s; auto].
+Qed.
+
+Lemma same_type_trans z a b c : same_type z a b -> same_type z b c -> same_type z a c.
+Proof.
+  intros [->|(ta & tb & H1 & H2 & Ho & Hd & Hab)]; [auto|].
+  intros [<-|(tb' & tc & H3 & H4 & Ho' & Hd' & Hbc)].
+  { right. exists ta, tb. auto 10. }
+  rewrite H2 in H3. inversion H3; subst tb'. clear H3.
+  right. exists ta, tc. repeat split; auto; try congruence.
+  destruct Hab as [E|(s & C1 & C2)], Hbc as [E'|(s' & C3 & C4)].
+  - left. congruence.
+  - right. exists s'. rewrite E. auto.
+  - right. exists s. rewrite <- E'. auto.
+  - right. exists s. split; [exact C1|]. congruence.
+Qed.
+
 (* equivalent first arguments are interchangeable (symmetry + transitivity),
    with no validity assumption on the indices *)
 Lemma eqv_types_cong z a b c : eqv_types z a b = true -> eqv_types z a c = eqv_types z b c.
 Proof.
-  unfold eqv_types, equiv_transitions.
-  destruct (Z.eqb_spec a b) as [->|Nab]; [reflexivity|].
-  destruct (nth_res (z_types z) a) as [ta|ea] eqn:Ea; cbn [bind]; [|discriminate].
-  destruct (nth_res (z_types z) b) as [tb|eb] eqn:Eb; cbn [bind]; [|discriminate].
-  intros H. rewrite !andb_true_iff in H. destruct H as [[H1 H2] H3].
-  apply Z.eqb_eq in H1, H3. apply eqb_prop in H2.
-  destruct (Z.eqb_spec a c) as [Eac|Nac], (Z.eqb_spec b c) as [Ebc|Nbc].
-  - congruence.
-  - subst c. rewrite Ea. cbn [bind]. rewrite H1, H2, H3, !Z.eqb_refl, eqb_reflx. reflexivity.
-  - subst c. rewrite Eb. cbn [bind]. rewrite H1, H2, H3, !Z.eqb_refl, eqb_reflx. reflexivity.
-  - destruct (nth_res (z_types z) c) as [tc|ec]; cbn [bind]; [|reflexivity].
-    rewrite H1, H2, H3. reflexivity.
+  intros H. apply eqv_types_char in H. apply eq_true_iff_eq. rewrite !eqv_types_char.
+  split; intros K.
+  - eapply same_type_trans; [apply same_type_sym; exact H|exact K].
+  - eapply same_type_trans; [exact H|exact K].
+Qed.
+
+(* THE fact C11 rests on: on a certified zone two (valid) types are equivalent
+   exactly when they show the same observable triple -- the same UTC offset and
+   the same (is_dst, abbreviation text).  So a change that alters nothing is
+   never reported (it is skipped as equivalent) and every reported change
+   (eqv_types = false across it) alters the offset, the DST flag or the
+   abbreviation.  False before the fix: History.equiv_abbr_index_refuted. *)
+Theorem eqv_types_iff_same_info z a b :
+  zone_ok z = true -> idx_ok z a = true -> idx_ok z b = true ->
+  (eqv_types z a b = true <-> off_of z a = off_of z b /\ info_of z a = info_of z b).
+Proof.
+  intros Zok Ha Hb. pose proof (zone_ok_facts z Zok) as F.
+  destruct (type_facts z a F Ha) as (ta & Ea & Oa & _ & _ & _ & Aa).
+  destruct (type_facts z b F Hb) as (tb & Eb & Ob & _ & _ & _ & Ab).
+  unfold info_of. rewrite Ea, Eb, <- Oa, <- Ob. cbn [bind].
+  rewrite (cstr_from_ok _ _ Aa), (cstr_from_ok _ _ Ab). cbn [bind].
+  rewrite eqv_types_char. unfold same_type. split.
+  - intros [E|(ta' & tb' & H1 & H2 & Ho & Hd & Hab)].
+    + subst b. rewrite Ea in Eb. inversion Eb; subst tb. auto.
+    + rewrite Ea in H1. rewrite Eb in H2. inversion H1; inversion H2; subst ta' tb'.
+      split; [exact Ho|]. rewrite Hd.
+      destruct Hab as [E|(s & C1 & C2)]; [rewrite E; reflexivity|].
+      rewrite (cstr_from_ok _ _ Aa) in C1. rewrite (cstr_from_ok _ _ Ab) in C2. congruence.
+  - intros [Ho Hi]. inversion Hi as [[Hd Hs]]. right. exists ta, tb. repeat split; auto.
+    right. eexists. split; [apply cstr_from_ok; exact Aa|].
+    rewrite Hs. apply cstr_from_ok; exact Ab.
+Qed.
+
+Corollary eqv_types_false_iff_info_differs z a b :
+  zone_ok z = true -> idx_ok z a = true -> idx_ok z b = true ->
+  (eqv_types z a b = false <-> ~ (off_of z a = off_of z b /\ info_of z a = info_of z b)).
+Proof.
+  intros Zok Ha Hb. rewrite <- (eqv_types_iff_same_info z a b Zok Ha Hb).
+  destruct (eqv_types z a b); split; intros H; try reflexivity; try discriminate.
+  exfalso. apply H. reflexivity.
 Qed.
 
 (* ================================================================== *)
